@@ -167,7 +167,35 @@ fn observe(b: B, seq: &[E], dom: &[u64]) -> Table {
             Table {
                 inputs: seq.iter().enumerate().map(|(i, e)| Item { own: excl(e.base, e.size), key: (e.base, e.size, vtag(e.tag, two, i)) }).collect(),
                 by_addr: sf.functions.ranges_values().map(|(_, f)| item!(f)).collect(),
-                at: dom.iter().map(|&a| (a, sf.functions.get(a).map(|f| item!(f)))).collect(),
+                // the table itself, then the public lookup (`fill_symbol` of a frame at module base + address, for a
+                // module loaded at 0 and one loaded at 0x1000): what it reports must be an entry of the table too
+                at: dom
+                    .iter()
+                    .map(|&a| (a, sf.functions.get(a).map(|f| item!(f))))
+                    .chain(dom.iter().flat_map(|&a| {
+                        [0u64, 0x1000].into_iter().filter_map(move |base| a.checked_add(base).map(|ip| (a, base, ip))).collect::<Vec<_>>()
+                    }).map(|(a, base, ip)| {
+                        struct Fr {
+                            ip: u64,
+                            func: Option<(String, u64)>,
+                        }
+                        impl breakpad_symbols::FrameSymbolizer for Fr {
+                            fn get_instruction(&self) -> u64 {
+                                self.ip
+                            }
+                            fn set_function(&mut self, n: &str, b: u64, _p: u32) {
+                                self.func = Some((n.into(), b));
+                            }
+                            fn set_source_file(&mut self, _f: &str, _l: u32, _b: u64) {}
+                        }
+                        let module = breakpad_symbols::SimpleModule { base_address: Some(base), size: Some(u64::MAX - base), ..Default::default() };
+                        let mut fr = Fr { ip, func: None };
+                        sf.fill_symbol(&module, &mut fr);
+                        // map the reported (name, absolute base) back to the table entry
+                        let found = fr.func.and_then(|(n, b)| sf.functions.ranges_values().map(|(_, f)| f).find(|f| f.name == n && f.address.checked_add(base) == Some(b)).map(|f| item!(f)));
+                        (a, found)
+                    }))
+                    .collect(),
             }
         }
         B::SymLine => {
